@@ -92,7 +92,7 @@ fn run_exec(t: &[&str]) -> String {
             if vm.set_jit_exec_memory(exec_mem(1 << 22)).is_err() { *eo = " | jit=setmem-err".into(); }
             else { match vm.jit_compile() {
                 Err(_) => *eo = " | jit=compile-err".into(),
-                Ok(()) => if out.starts_with("ok") {
+                Ok(()) => if out.starts_with("ok") && !kv.contains_key("norun") {
                     let mut m2 = mem0.clone(); let mut b2 = mbuff0.clone();
                     HLOG.with(|l| l.borrow_mut().clear());
                     // (patched pointers refer to the first buffers: restore and reuse them)
